@@ -115,6 +115,20 @@ def own_annotations(cls):
 MISSING = object()
 
 
+class Unresolvable:
+    """stands for an annotation that raised when evaluated in its scope; equal to nothing"""
+    def __init__(self, why):
+        self.why = why
+
+    def __repr__(self):
+        return f"<annotation does not evaluate: {self.why}>"
+
+    def __eq__(self, other):
+        return False
+
+    __hash__ = object.__hash__
+
+
 def field_table(ld, cls, framework):
     """-> {python field name: dict(annotation=<resolved typing object>, raw=<raw annotation>, has_default, default, key)}
     `key` is the original JSON key recoverable from the class itself (pydantic alias / attrs, dataclass metadata), or None."""
@@ -153,7 +167,13 @@ def field_table(ld, cls, framework):
             out[fname] = {"raw": raw, "has_default": d is not MISSING, "default": d, "key": None}
     for fname, rec in out.items():
         # a literal `None` annotation is an annotation (NoneType), not a missing one
-        rec["annotation"] = resolve_annotation(rec["raw"], ld, cls) if fname in anns else None
+        if fname in anns:
+            try:
+                rec["annotation"] = resolve_annotation(rec["raw"], ld, cls)
+            except Exception as e:      # an annotation that does not evaluate denotes no type: reported by whoever compares it
+                rec["annotation"] = Unresolvable(f"{type(e).__name__}: {e}")
+        else:
+            rec["annotation"] = None
     return out
 
 
